@@ -27,3 +27,14 @@ for i in ids:
     finally:
         subprocess.run(['git', '-C', '/repo', 'checkout', '--', '.'], check=True)
     json.dump(res, open(d + '/result.json', 'w'), indent=1)
+
+# ---- summary table
+rows = []
+for i in sorted(os.listdir(V + '/seeded')):
+    d = '%s/seeded/%s' % (V, i)
+    if not os.path.exists(d + '/result.json'): continue
+    meta = json.load(open(d + '/meta.json')); res = json.load(open(d + '/result.json'))
+    for p, r in res.items():
+        verdict = {0: 'MISSED (exit 0)', 1: 'caught (VIOLATION)', 2: 'inconclusive (exit 2)'}.get(r['exit'], 'exit %s' % r['exit'])
+        rows.append('| %s | %s | %s | %s | %s |' % (i, p, verdict, '; '.join(m.split('] ', 1)[-1][:90] for m in r['messages'][:2]), (meta.get('breaks') or '')[:110].replace('|', '/')))
+open(V + '/seeded/README.md', 'w').write('# Seeded changes and what the checks say about them\n\nEach directory holds `patch.diff` (apply with `git -C /repo apply`), `demo.rs` (fails with the patch, passes without), `meta.json` and `result.json` (output of `tools/run_seeded.py`: the quick check of the broken property run against /repo with the patch applied).\n\n| seeded change | check | verdict | first messages | what the change breaks |\n|---|---|---|---|---|\n' + '\n'.join(rows) + '\n')
